@@ -58,7 +58,8 @@ LEVEL_NOTE = ("Trusted: numpy, scipy.linalg.expm, jax.vmap (the batch of unit ex
 TECHNIQUE = ("PBT: exact covariance via linearity (unit excitations) vs transition recursion + continuous-time kernel "
              "(closed form / Van Loan)")
 ASSUMPTIONS = [
-    "float64, CPU; 1-12 steps; dt in [1/8, 2], sigma in [1/4, 3], gamma in [1/8, 2], asperity in [0, 2] (dyadic)",
+    "float64, CPU; 1-12 steps; dt in [1/8, 2], sigma in [1/4, 3], gamma in [1/8, 2] (bare OU function: also scaled by "
+    "2^-8 .. 2^-26), asperity in [0, 2] (dyadic)",
     "integrated Wiener process: asperity enters the variance linearly, Q_xx = sigma^2 (dt^3/3 + asperity dt) "
     "(repository test + correlated-field caller), not squared as the docstring's SDE notation suggests",
     "Ornstein-Uhlenbeck: sigma is the steady-state standard deviation, Q = sigma^2 (1 - exp(-2 gamma dt)) "
@@ -238,6 +239,11 @@ class Oracle:
         self.As, self.Qs, Fs, Ds = closed_form_steps(proc, self.dt, self.sigma, self.gamma, self.asp)
         self.mean, self.cov, self.mean_abs = recursion(m0, P0, self.As, self.Qs)
         self.scale = cov_scale(self.cov)
+        if proc == "ou":
+            # the documented step variance sigma^2 (1 - e^{-2 gamma dt}) carries an absolute round-off of a few eps
+            # sigma^2 (cancellation for gamma dt << 1): admit it (1e-6 * TOL = 1e-15) so that slowly damped / finely
+            # sampled processes can be generated without flakiness
+            self.scale = self.scale + 1e-6 * n * float(np.max(np.abs(self.sigma))) ** 2
         self.t = np.concatenate([[0.0], np.cumsum(self.dt)])
         self.constant = is_const(self.sigma) and is_const(self.gamma) and is_const(self.asp)
         # independent derivation of the continuous-time covariance
@@ -445,9 +451,14 @@ def check_process(rec):
              np.abs(g0.reshape(-1)) + np.abs(Lg) @ np.abs(lat.reshape(-1)))
     close_el(Lg @ Lg.T, orc.cov, "generic_fed_transition_cov_vs_recursion", orc.scale)
     close_el(Lg @ Lg.T, L @ L.T, f"generic_vs_{proc}_covariance", orc.scale)
+    path_scale = np.abs(out0.reshape(-1)) + np.abs(L) @ np.abs(lat.reshape(-1))
+    if proc == "ou":
+        # the specialised function computes its step amplitude as sigma*sqrt(1 - e^{-2 gamma dt}) (cancellation for
+        # gamma dt << 1, absolute error <= sigma*eps/(2 sqrt(2 gamma dt))), the generic one is fed the oracle's
+        # expm1-based amplitude: admit that documented-formula round-off (gamma dt >= 2^-32 in the generated range)
+        path_scale = path_scale + 4e-3 * float(np.max(np.abs(orc.sigma))) * float(np.sum(np.abs(lat)))
     close_el(pth.reshape(-1), out1.reshape(-1),
-             f"scalar_generic_vs_{proc}_path" if d == 1 else "generic_vs_iwp_path_upper_factor",
-             np.abs(out0.reshape(-1)) + np.abs(L) @ np.abs(lat.reshape(-1)))
+             f"scalar_generic_vs_{proc}_path" if d == 1 else "generic_vs_iwp_path_upper_factor", path_scale)
     return dict(nontrivial=varying(rec), classes=classes)
 
 
@@ -715,6 +726,11 @@ def process_recipes(proc):
                  "jit": jit, "wrapper": draw(st.booleans())}
             if proc == "ou":
                 r["gamma"] = _param(draw, GAM, n, pl)
+                # slow damping relative to the step (gamma dt down to ~1e-8): the regime of long correlation lengths
+                k = draw(st.sampled_from([0, 0, 0, 8, 16, 22, 26]))
+                if k:
+                    r["gamma"] = [g * 2.0 ** -k for g in r["gamma"]] if isinstance(r["gamma"], list) \
+                        else r["gamma"] * 2.0 ** -k
             if proc == "iwp":
                 r["x0"] = [draw(X0), draw(X0)]
                 how = draw(st.sampled_from(["none", "omit", "zero", "val", "val", "val", "val", "val"]))
